@@ -3,6 +3,8 @@ import Hgxv.Proofs.C07Json
 import Hgxv.Proofs.C07Link
 import Hgxv.Proofs.C07Heap
 import Hgxv.Proofs.C07Repeat
+import Hgxv.Proofs.C07PyFmt
+import Hgxv.Proofs.C07Side
 import Hgxv.Proofs.C01Ops
 import Hgxv.Proofs.C02All
 import Hgxv.Proofs.C03Inv
@@ -664,3 +666,241 @@ def exSides : List (Op KD) :=
 example : preimage? (run (init KD true []) exSides) =
     preimage? (run (init KD true []) [.addEdge ([1], [2]) (some (.int 7)) none]) := by rfl
 end C07Ex
+
+/-! ## Extension round: `json.dumps(·, sort_keys=True)` inside the model
+
+`Model/C07Dumps.lean` writes the JSON text (`renderK`: separators `", "` / `": "`, `null/true/false`, strings between
+quotes with the `ensure_ascii` escapes, dictionaries and lists in order; `dumpsJ f = text of ser ·` is `sort_keys=True`),
+`pyFmt` is what CPython writes for the atoms (decimal ints, positional quarter floats, `\" \\ \n \r \t \b \f \uXXXX`
+with surrogate pairs).  `hashText f t` is the text whose SHA-256 `hash_hypergraph` returns.  The hypothesis "`dumps` is
+injective on serialized trees" of `C07_differ` is now a THEOREM; what stays a hypothesis is collision-freeness of `H`. -/
+
+/-- the canonical serialisation is an injective function on JSON trees (dictionary ORDER included: the text is a
+faithful print), for every atom writer that satisfies `Fmt.Laws` -/
+theorem C07_json_text_injective (f : Fmt) (L : f.Laws) (a b : JTree) (h : render f a = render f b) : a = b :=
+  render_inj L h
+
+/-- stronger: JSON texts form a prefix code - written in front of continuations that start with `,` `]` `}` (or are
+empty) two values give the same text only if the values and the continuations are the same; this is what makes
+lists and dictionaries of values unambiguous -/
+theorem C07_json_prefix_code (f : Fmt) (L : f.Laws) (a b : JTree) (r₁ r₂ : List Char) (s₁ : Stop r₁) (s₂ : Stop r₂)
+    (h : renderK f a r₁ = renderK f b r₂) : a = b ∧ r₁ = r₂ := renderK_pref L a b r₁ r₂ s₁ s₂ h
+
+/-- CPython's atom writers satisfy the laws: ints and quarter floats are written injectively and never alike
+(`1` / `1.0`), escapes of distinct characters are never prefixes of one another (UTF-16 pairs included) -/
+theorem C07_pyFmt_laws : pyFmt.Laws := pyFmt_laws
+
+/-- `1` and `1.0` (any int and any float) have different JSON texts -/
+theorem C07_int_float_texts_differ (i q : Int) : pyFmt.num (.int i) ≠ pyFmt.num (.flt q) := int_ne_flt i q
+
+/-- `json.dumps(·, sort_keys=True)` gives the same text exactly for trees that agree up to the order of dictionary
+keys (at every depth) -/
+theorem C07_dumps_iff_ser (f : Fmt) (L : f.Laws) (a b : JTree) : dumpsJ f a = dumpsJ f b ↔ ser a = ser b :=
+  ⟨fun h => dumpsJ_inj L h, fun h => by unfold dumpsJ; rw [h]⟩
+
+/-- ... i.e. exactly for equal JSON values (Python `==` with the numeric types kept apart), for values whose
+dictionaries have no repeated key -/
+theorem C07_dumps_iff_value (f : Fmt) (L : f.Laws) (a b : JTree) (ka : KN a) (kb : KN b) :
+    dumpsJ f a = dumpsJ f b ↔ JEq a b :=
+  (C07_dumps_iff_ser f L a b).trans (ser_eq_iff_JEq a b ka kb)
+
+/-- `serialize` is idempotent, so `sort_keys=True` finds the keys of the serialized pre-image sorted already: the text
+is the print of the pre-image as it stands (dropping the recursion of `serialize`, or the `sort_keys` flag, alone
+would not change any hash) -/
+theorem C07_sort_keys_noop (f : Fmt) (a : JTree) :
+    ser (ser a) = ser a ∧ dumpsJ f (ser a) = String.ofList (render f (ser a)) := ⟨ser_idem a, dumpsJ_ser f a⟩
+
+/-- the hashed TEXT is a function of the content and determines it: two well-formed table states of one class have
+the same text iff they have the same abstract content (nodes, hyperedges, weights with their numeric type, all
+metadata as JSON values, weightedness); the text always exists -/
+theorem C07_text_iff_content (f : Fmt) (L : f.Laws) (t₁ t₂ : Tables κ) (w₁ : WF t₁) (w₂ : WF t₂) :
+    (hashText f t₁ = hashText f t₂ ↔ (content t₁).Equiv (content t₂)) ∧ (hashText f t₁).isSome = true := by
+  unfold hashText
+  rw [factor w₁, factor w₂]
+  refine ⟨⟨fun h => ?_, fun h => ?_⟩, rfl⟩
+  · simp only [Option.map_some, Option.some.injEq] at h
+    have e := dumpsJ_inj L h
+    unfold canon at e
+    rw [ser_idem, ser_idem] at e
+    exact canon_inj e
+  · rw [canon_congr (content_WF w₁) h]
+
+/-- the same for the text CPython writes, for any two histories from the constructor with lists -/
+theorem C07_text_iff_content_run (wt₁ wt₂ : Bool) (hm₁ hm₂ : List (String × JTree)) (ns₁ ns₂ : List (Nat × JTree))
+    (ww₁ ww₂ : Bool) (es₁ es₂ : List (κ × Option Num × Option JTree)) (ops₁ ops₂ : List (Op κ)) :
+    hashText pyFmt (run (build κ wt₁ hm₁ ns₁ ww₁ es₁) ops₁) = hashText pyFmt (run (build κ wt₂ hm₂ ns₂ ww₂ es₂) ops₂) ↔
+    (content (run (build κ wt₁ hm₁ ns₁ ww₁ es₁) ops₁)).Equiv (content (run (build κ wt₂ hm₂ ns₂ ww₂ es₂) ops₂)) :=
+  (C07_text_iff_content pyFmt pyFmt_laws _ _ (C07_wf_build wt₁ hm₁ ns₁ ww₁ es₁ ops₁).2
+    (C07_wf_build wt₂ hm₂ ns₂ ww₂ es₂ ops₂).2).1
+
+/-- the hash is `H` of that text -/
+theorem C07_hash_is_H_of_text {Digest : Type} (f : Fmt) (H : String → Digest) (t : Tables κ) :
+    hashOf (dumpsJ f) H t = (hashText f t).map H := by
+  unfold hashOf hashText
+  cases preimage? t <;> rfl
+
+/-- EQUAL HASH IFF EQUAL CONTENT, with CPython's `json.dumps` inside the model: the only hypothesis left is that `H`
+(SHA-256) does not collide -/
+theorem C07_hash_iff_content {Digest : Type} (H : String → Digest) (hH : ∀ x y : String, H x = H y → x = y)
+    (t₁ t₂ : Tables κ) (w₁ : WF t₁) (w₂ : WF t₂) :
+    hashOf (dumpsJ pyFmt) H t₁ = hashOf (dumpsJ pyFmt) H t₂ ↔ (content t₁).Equiv (content t₂) := by
+  constructor
+  · intro h
+    apply Classical.byContradiction
+    intro hne
+    exact C07_differ (dumpsJ pyFmt) H t₁ t₂ w₁ w₂ hne (fun a b e => by have := dumpsJ_inj pyFmt_laws e; rwa [ser_idem, ser_idem] at this) (hH _ _) h
+  · intro h
+    exact (C07_equal (dumpsJ pyFmt) H t₁ t₂ w₁ w₂ h).1
+
+/-- ... for any two histories (constructor with lists, then any calls) of one class -/
+theorem C07_hash_iff_content_run {Digest : Type} (H : String → Digest) (hH : ∀ x y : String, H x = H y → x = y)
+    (wt₁ wt₂ : Bool) (hm₁ hm₂ : List (String × JTree)) (ns₁ ns₂ : List (Nat × JTree)) (ww₁ ww₂ : Bool)
+    (es₁ es₂ : List (κ × Option Num × Option JTree)) (ops₁ ops₂ : List (Op κ)) :
+    hashOf (dumpsJ pyFmt) H (run (build κ wt₁ hm₁ ns₁ ww₁ es₁) ops₁) =
+      hashOf (dumpsJ pyFmt) H (run (build κ wt₂ hm₂ ns₂ ww₂ es₂) ops₂) ↔
+    (content (run (build κ wt₁ hm₁ ns₁ ww₁ es₁) ops₁)).Equiv (content (run (build κ wt₂ hm₂ ns₂ ww₂ es₂) ops₂)) :=
+  C07_hash_iff_content H hH _ _ (C07_wf_build wt₁ hm₁ ns₁ ww₁ es₁ ops₁).2 (C07_wf_build wt₂ hm₂ ns₂ ww₂ es₂ ops₂).2
+
+/-- the four classes, spelled out (the statement above at `κ = KH, KD, KT, KM`) -/
+theorem C07_hash_iff_content_H {Digest : Type} (H : String → Digest) (hH : ∀ x y : String, H x = H y → x = y)
+    (t₁ t₂ : Tables KH) (w₁ : WF t₁) (w₂ : WF t₂) :
+    hashOf (dumpsJ pyFmt) H t₁ = hashOf (dumpsJ pyFmt) H t₂ ↔ (content t₁).Equiv (content t₂) :=
+  C07_hash_iff_content H hH t₁ t₂ w₁ w₂
+theorem C07_hash_iff_content_D {Digest : Type} (H : String → Digest) (hH : ∀ x y : String, H x = H y → x = y)
+    (t₁ t₂ : Tables KD) (w₁ : WF t₁) (w₂ : WF t₂) :
+    hashOf (dumpsJ pyFmt) H t₁ = hashOf (dumpsJ pyFmt) H t₂ ↔ (content t₁).Equiv (content t₂) :=
+  C07_hash_iff_content H hH t₁ t₂ w₁ w₂
+theorem C07_hash_iff_content_T {Digest : Type} (H : String → Digest) (hH : ∀ x y : String, H x = H y → x = y)
+    (t₁ t₂ : Tables KT) (w₁ : WF t₁) (w₂ : WF t₂) :
+    hashOf (dumpsJ pyFmt) H t₁ = hashOf (dumpsJ pyFmt) H t₂ ↔ (content t₁).Equiv (content t₂) :=
+  C07_hash_iff_content H hH t₁ t₂ w₁ w₂
+theorem C07_hash_iff_content_M {Digest : Type} (H : String → Digest) (hH : ∀ x y : String, H x = H y → x = y)
+    (t₁ t₂ : Tables KM) (w₁ : WF t₁) (w₂ : WF t₂) :
+    hashOf (dumpsJ pyFmt) H t₁ = hashOf (dumpsJ pyFmt) H t₂ ↔ (content t₁).Equiv (content t₂) :=
+  C07_hash_iff_content H hH t₁ t₂ w₁ w₂
+
+/-- a single edit of the content (any of the `C07_differ_*` lemmas gives `¬ Equiv`) changes the hashed text - no
+hypothesis on `dumps` any more -/
+theorem C07_differ_text (t₁ t₂ : Tables κ) (w₁ : WF t₁) (w₂ : WF t₂) (h : ¬ (content t₁).Equiv (content t₂)) :
+    hashText pyFmt t₁ ≠ hashText pyFmt t₂ :=
+  fun e => h ((C07_text_iff_content pyFmt pyFmt_laws t₁ t₂ w₁ w₂).1.mp e)
+
+namespace C07Ex
+/-- the text CPython writes for a small pre-image (escapes, a surrogate pair, `1` next to `1.0`, `-0.75`, empty
+containers, keys sorted by `sort_keys`) -/
+example : dumpsJ pyFmt (.obj [("b", .arr [.num (.int 1), .num (.flt 4), .num (.flt (-3)), .null, .bool true, .arr [], .obj []]),
+      ("a", .str "x\"y\n😀é")]) =
+    "{\"a\": \"x\\\"y\\n\\ud83d\\ude00\\u00e9\", \"b\": [1, 1.0, -0.75, null, true, [], {}]}" := by decide
+/-- the text of the two histories `exShrink` / `exOnce` is the same, the one of the renamed weight differs -/
+example : hashText pyFmt (run (init KH true []) exShrink) = hashText pyFmt (run (init KH true []) exOnce) := by rfl
+example : hashText pyFmt (run (init KH true []) exShrink) ≠
+    hashText pyFmt (run (init KH true []) [.addEdge [2, 3] (some (.int 5)) (some (.obj [("k", .str "new")]))]) :=
+  C07_differ_text _ _ (run_wf (init_wf KH true []) _) (run_wf (init_wf KH true []) _) (fun e =>
+    C07_differ_weight _ _ (content_WF (run_wf (init_wf KH true []) _)) [2, 3] (.int 7) (.int 5)
+      (.obj [("k", .str "new")]) (.obj [("k", .str "new")])
+      (by show _ ∈ [_]; exact List.mem_singleton.mpr rfl) (by show _ ∈ [_]; exact List.mem_singleton.mpr rfl) (by decide)
+      (canon_congr (content_WF (run_wf (init_wf KH true []) _)) e))
+example : (hashText pyFmt (run (init KD true []) exSides)) = some
+    "{\"edges\": [{\"metadata\": {}, \"nodes\": [[1], [2]], \"weight\": 7}], \"hypergraph_metadata\": {\"type\": \"DirectedHypergraph\", \"weighted\": true}, \"nodes\": [{\"metadata\": {}, \"node\": 1}, {\"metadata\": {}, \"node\": 2}], \"type\": \"DirectedHypergraph\", \"weighted\": true}" := by decide +kernel
+/-- `{"a": 1, "b": 2}` in both key orders: one text; `1` vs `1.0`: two texts -/
+example : dumpsJ pyFmt (.obj [("b", .num (.int 2)), ("a", .num (.int 1))]) =
+    dumpsJ pyFmt (.obj [("a", .num (.int 1)), ("b", .num (.int 2))]) := by decide
+example : dumpsJ pyFmt (.num (.int 1)) ≠ dumpsJ pyFmt (.num (.flt 4)) := by decide
+end C07Ex
+
+/-! ## Extension round: the tables the hashed view does not read (`_incidences_metadata`, `_empty_edges`)
+
+`Model/C07Side.lean`: `Obj κ` = hashing tables + incidence metadata + the registry of empty hyperedges, `OOp` = the old
+calls + `set_incidence_metadata` + `add_empty_edge`, per class as the code has them (Hypergraph stores the incidence
+record under the edge as passed, Directed / Temporal under the canonical key, Multiplex has neither; `clear()` empties
+the incidence table in Hypergraph / Directed only, the registry in Hypergraph). -/
+
+/-- the hashing tables after a history of an object are the hashing tables after the same history with the side-table
+calls deleted: these calls never write a table that `expose_attributes_for_hashing` reads, and no other call reads
+the side tables -/
+theorem C07_side_tables_unread {κ : Type} [Kind κ] [SideKind κ] (o : Obj κ) (ops : List (OOp κ)) :
+    (orun o ops).base = run o.base (ops.filterMap OOp.toBase?) := orun_base o ops
+
+/-- hence the hashed text of an object never changes with `set_incidence_metadata` / `add_empty_edge` calls, wherever
+they stand in the history (accepted or rejected) -/
+theorem C07_side_calls_invisible {κ : Type} [Kind κ] [SideKind κ] (f : Fmt) (o : Obj κ) (ops : List (OOp κ)) :
+    hashTextObj f (orun o ops) = hashText f (run o.base (ops.filterMap OOp.toBase?)) := by
+  unfold hashTextObj; rw [orun_base]
+
+/-- equal hashed text iff equal content of the hashing tables, for two histories of full objects of one class (side-table
+calls included): the fingerprint sees exactly the content named by the property and nothing of the side tables -/
+theorem C07_obj_text_iff_content {κ : Type} [Kind κ] [LawfulKind κ] [SideKind κ] (wt₁ wt₂ : Bool)
+    (hm₁ hm₂ : List (String × JTree)) (ops₁ ops₂ : List (OOp κ)) :
+    hashTextObj pyFmt (orun (oinit κ wt₁ hm₁) ops₁) = hashTextObj pyFmt (orun (oinit κ wt₂ hm₂) ops₂) ↔
+    (content (orun (oinit κ wt₁ hm₁) ops₁).base).Equiv (content (orun (oinit κ wt₂ hm₂) ops₂).base) := by
+  unfold hashTextObj
+  rw [orun_base, orun_base]
+  exact (C07_text_iff_content pyFmt pyFmt_laws _ _ (run_wf (init_wf κ wt₁ hm₁) _) (run_wf (init_wf κ wt₂ hm₂) _)).1
+
+/-- the limit, stated: objects that differ only in incidence metadata or in registered empty hyperedges have the same
+hash (the property's list of differences does not name these two tables; `hash_hypergraph` is no fingerprint of them) -/
+theorem C07_side_tables_not_hashed {κ : Type} [Kind κ] [SideKind κ] (f : Fmt) (o : Obj κ) (raw : κ) (n : Nat)
+    (name : String) (md : JTree) :
+    hashTextObj f (ostep o (.setInc raw n md)).1 = hashTextObj f o ∧
+    hashTextObj f (ostep o (.addEmpty name md)).1 = hashTextObj f o := by
+  unfold hashTextObj
+  exact ⟨by rw [show (ostep o (.setInc raw n md)).1.base = o.base from setInc_base o raw n md],
+    by rw [show (ostep o (.addEmpty name md)).1.base = o.base from addEmpty_base o name md]⟩
+
+namespace C07Ex
+/-- Hypergraph: an incidence record under two listings of one hyperedge (two entries: stored as passed), an empty
+hyperedge registered, a rejected second registration - same text as the plain history; the side tables do differ -/
+def exSide : List (OOp KH) :=
+  [.base (.addEdge [3, 1, 2] none none), .setInc [2, 1, 3] 7 (.obj [("r", .num (.int 1))]), .setInc [1, 2, 3] 7 emptyObj,
+   .addEmpty "e1" emptyObj, .addEmpty "e1" (.null), .setInc [1, 2] 1 emptyObj]
+example : hashTextObj pyFmt (orun (oinit KH false []) exSide) =
+    hashTextObj pyFmt (orun (oinit KH false []) [.base (.addEdge [1, 2, 3] none none)]) := by rfl
+example : (orun (oinit KH false []) exSide).inc.map (·.1) = [([2, 1, 3], 7), ([1, 2, 3], 7)] ∧
+    (orun (oinit KH false []) exSide).empties.map (·.1) = ["e1"] := by decide
+/-- Directed: one entry (canonical key); `clear()` empties it; Temporal keeps it; Multiplex rejects the call -/
+example : (orun (oinit KD false []) [.base (.addEdge ([2, 1], [3]) none none), .setInc ([2, 1], [3]) 1 emptyObj,
+    .setInc ([1, 2], [3]) 1 .null]).inc.map (·.1) = [(([1, 2], [3]), 1)] := by decide
+example : (orun (oinit KD false []) [.base (.addEdge ([1], [3]) none none), .setInc ([1], [3]) 1 emptyObj, .base .clear]).inc.length = 0
+    ∧ (orun (oinit KT false []) [.base (.addEdge (0, [1, 3]) none none), .setInc (0, [3, 1]) 1 emptyObj, .base .clear]).inc.length = 1
+    ∧ (ostep (orun (oinit KM false []) [.base (.addEdge ([1, 3], 0) none none)]) (.setInc ([1, 3], 0) 1 emptyObj)).2 = false := by decide
+end C07Ex
+
+/-! ### the same `iff` for the FULL container models C01–C04 (every state satisfying the container invariant, in
+particular every state reached by a history of public calls: `C0x.run_inv`) against their abstract `Spec` states -/
+
+/-- `json.dumps` as CPython writes it discharges the `dumps` hypothesis of `C07_differ*` -/
+theorem C07_dumps_hypothesis (a b : JTree) (e : dumpsJ pyFmt (ser a) = dumpsJ pyFmt (ser b)) : ser a = ser b := by
+  have := dumpsJ_inj pyFmt_laws e
+  rwa [ser_idem, ser_idem] at this
+
+theorem C07_full_model_iff_H {Digest : Type} (H : String → Digest) (hH : ∀ x y : String, H x = H y → x = y)
+    (s s' : C01.Store) (h : C01.Inv s) (h' : C01.Inv s') :
+    hashOf (dumpsJ pyFmt) H (ofC01 s) = hashOf (dumpsJ pyFmt) H (ofC01 s') ↔
+      (ofSpec01 (C01.abs s)).Equiv (ofSpec01 (C01.abs s')) :=
+  ⟨fun e => Classical.byContradiction (fun ne => C07_differ_C01 _ H s s' h h' ne C07_dumps_hypothesis hH e),
+   fun e => C07_equal_C01 _ H s s' h h' e⟩
+
+theorem C07_full_model_iff_D {Digest : Type} (H : String → Digest) (hH : ∀ x y : String, H x = H y → x = y)
+    (s s' : C02.Store) (h : C02.Inv s) (h' : C02.Inv s') :
+    hashOf (dumpsJ pyFmt) H (ofC02 s) = hashOf (dumpsJ pyFmt) H (ofC02 s') ↔
+      (ofSpec02 (C02.abs s)).Equiv (ofSpec02 (C02.abs s')) :=
+  ⟨fun e => Classical.byContradiction (fun ne => C07_differ_C02 _ H s s' h h' ne C07_dumps_hypothesis hH e),
+   fun e => C07_equal_C02 _ H s s' h h' e⟩
+
+theorem C07_full_model_iff_T {Digest : Type} (H : String → Digest) (hH : ∀ x y : String, H x = H y → x = y)
+    (s s' : C03.Store) (h : C03.Inv s) (h' : C03.Inv s') :
+    hashOf (dumpsJ pyFmt) H (ofC03 s) = hashOf (dumpsJ pyFmt) H (ofC03 s') ↔
+      (ofSpec03 (C03.abs s)).Equiv (ofSpec03 (C03.abs s')) :=
+  ⟨fun e => Classical.byContradiction (fun ne => C07_differ_C03 _ H s s' h h' ne C07_dumps_hypothesis hH e),
+   fun e => C07_equal_C03 _ H s s' h h' e⟩
+
+theorem C07_full_model_iff_M {Digest : Type} (H : String → Digest) (hH : ∀ x y : String, H x = H y → x = y)
+    (s s' : C04.Store) (h : C04.Inv s) (h' : C04.Inv s') :
+    hashOf (dumpsJ pyFmt) H (ofC04 s) = hashOf (dumpsJ pyFmt) H (ofC04 s') ↔
+      (ofSpec04 (C04.abs s)).Equiv (ofSpec04 (C04.abs s')) :=
+  ⟨fun e => Classical.byContradiction (fun ne => C07_differ_C04 _ H s s' h h' ne C07_dumps_hypothesis hH e),
+   fun e => C07_equal_C04 _ H s s' h h' e⟩
+
+/-- the text CPython writes is an injective function of the JSON tree -/
+theorem C07_json_text_injective_py (a b : JTree) (h : render pyFmt a = render pyFmt b) : a = b :=
+  render_inj pyFmt_laws h
